@@ -6,5 +6,6 @@ rsync -a --exclude .git /repo/ $S/
 sed -i "$1" $S/$2
 shift 2
 (cd $S && diff -r /repo $S --exclude .git | head -20) || true
+if [ "$1" = "--check" ]; then shift; for P in "$@"; do timeout 900 python3-vt /verif/engine/check.py $P --repo $S 2>&1 | grep -E "^VIOLATION|^  obligation|^$P:|^govc|UNDECIDED" | cut -c1-200; done; rm -rf $S; exit 0; fi
 python3-vt /verif/engine/govc.py --repo $S "$@" 2>&1 | grep -v '^        ' | grep -v '^      ' | grep -v '^  K' | grep -v '^    some'
 rm -rf $S
